@@ -19,6 +19,7 @@ var zzSrcErr = errors.New("zz source failure")
 // zzSrc is an io.Reader over a fixed stream. Every Read delivers a solver-chosen number of bytes
 // (0..min(len(p), remaining)); the source fails (io.EOF at the end of the stream, or an injected
 // error at a solver-chosen earlier position) either together with the last data or on the next call.
+// The first maxCalls calls fragment symbolically; later calls deliver as much as fits.
 type zzSrc struct {
 	data     []byte
 	pos      int
@@ -30,7 +31,6 @@ type zzSrc struct {
 
 func (s *zzSrc) Read(p []byte) (int, error) {
 	s.calls++
-	zzAssume(s.calls <= s.maxCalls)
 	zzAssert(s.failed == nil, "source called again after it reported an error")
 	end := len(s.data)
 	endErr := io.EOF
@@ -42,6 +42,16 @@ func (s *zzSrc) Read(p []byte) (int, error) {
 	lim := rem
 	if len(p) < lim {
 		lim = len(p)
+	}
+	if s.calls > s.maxCalls {
+		// beyond the explored fragmentation budget: deliver as much as fits, error only when dry
+		if rem == 0 {
+			s.failed = endErr
+			return 0, endErr
+		}
+		copy(p, s.data[s.pos:s.pos+lim])
+		s.pos += lim
+		return lim, nil
 	}
 	m := zzInt("m", 0, lim)
 	copy(p, s.data[s.pos:s.pos+m])
